@@ -65,6 +65,18 @@ fn check_pair(a: &str, b: &str) -> Result<(), (String, String)> {
     if rev != got.reverse() {
         return Err(("antisymmetry".into(), format!("cmp({:?}, {:?}) = {:?} but cmp({:?}, {:?}) = {:?}", a, b, got, b, a, rev)));
     }
+    // the same two strings as borrowed slices of ONE buffer (same start address, different
+    // lengths): the result must not depend on where the callers' strings live
+    if b.starts_with(a) && a.len() < b.len() {
+        let shared = rpm::Evr::new("", &b[..a.len()], "").cmp(&rpm::Evr::new("", b, ""));
+        if shared != want {
+            return Err(("differs-from-rpmvercmp".into(), format!("cmp({a:?}, {b:?}) with both arguments borrowed from one buffer = {shared:?}, rpmvercmp says {want:?}")));
+        }
+        let shared = rpm::Evr::new("", b, "").cmp(&rpm::Evr::new("", &b[..a.len()], ""));
+        if shared != want.reverse() {
+            return Err(("antisymmetry".into(), format!("cmp({b:?}, {a:?}) with both arguments borrowed from one buffer = {shared:?}")));
+        }
+    }
     // the release position and the string entry point use the same algorithm
     let via_release = rpm::Evr::new("", "1", a).cmp(&rpm::Evr::new("", "1", b));
     if via_release != want {
